@@ -15,7 +15,8 @@ Record tight_params := mkTP {
   tp_rs : Z; tp_gs : Z; tp_bs : Z;
   tp_conf : Z;         (* index into tightConf after the level clamping of SendRectEncodingTight *)
   tp_jpeg : bool;      (* the client set a quality level (turboQualityLevel != -1) *)
-  tp_s8 : bool         (* the server framebuffer has 8 bits per pixel: SendJpegRect falls back to full colour *)
+  tp_s8 : bool;        (* the server framebuffer has 8 bits per pixel: SendJpegRect falls back to full colour *)
+  tp_swap : bool       (* Pack24 as repaired (commit 1f04fe7): Swap32 the pixel, then the plain shifts; false = the old "24 - shift" *)
 }.
 
 (* tightCompressLevel after the clamping of SendRectEncodingTight (the later "9 -> 3" is dead code) *)
@@ -36,8 +37,12 @@ Definition conf_field (conf k : Z) : option Z :=
    cases (dimension "pad"), so both branches are driven on the implementation's side and compared. *)
 Definition tpixel_bytes (p : tight_params) (pix : Z) : list Z :=
   if tp_pack24 p then
-    let sh := fun s => if tp_be p then 24 - s else s in
-    [Z.shiftr pix (sh (tp_rs p)) mod 256; Z.shiftr pix (sh (tp_gs p)) mod 256; Z.shiftr pix (sh (tp_bs p)) mod 256]
+    if tp_swap p then
+      let v := if tp_be p then le_val (rev (le_bytes 4 pix)) else pix in      (* Swap32 when the byte orders differ *)
+      [Z.shiftr v (tp_rs p) mod 256; Z.shiftr v (tp_gs p) mod 256; Z.shiftr v (tp_bs p) mod 256]
+    else
+      let sh := fun s => if tp_be p then 24 - s else s in
+      [Z.shiftr pix (sh (tp_rs p)) mod 256; Z.shiftr pix (sh (tp_gs p)) mod 256; Z.shiftr pix (sh (tp_bs p)) mod 256]
   else le_bytes (tp_bypp p) pix.
 
 (* ---- palette: entries (rgb, numPixels) kept sorted by decreasing count (PaletteInsert) ---- *)
